@@ -10,6 +10,6 @@ class C13(C03):
         # tail = number of trailing flush ops
         tail = 0
         for o in reversed(case.ops):
-            if o == 'f': tail += 1
+            if o == case.ops[-1] and o in ('f', 'r', 'c:-'): tail += 1
             else: break
         return monitors.mon_c13(case, ots, tail if tail >= 3 else 0)
